@@ -166,6 +166,16 @@ def shapes(tier):
         if tier == 'quick' and not (cs in (('geom',), ('geom', 'fromto', 'jbody')) or (place == 'world' and kind == 'quat')):
           continue
         out.append((place, kind, cs))
+  # two jointless SIBLINGS under one parent (A before B), each with its own attribute set: state carried from one loop iteration of _fuse_bodies to the next
+  # (a stale pose of the earlier sibling) only shows on such shapes
+  for place in ('sibW', 'sibJ'):
+    for ka in kinds:
+      for kb in kinds:
+        for cs in (('geom',), ('geom', 'fromto', 'jbody')):
+          if tier == 'quick' and not ((place == 'sibW' and cs == ('geom',) and (ka, kb) in (('both', 'none'), ('pos', 'quat'), ('quat', 'pos'), ('none', 'both'))) or
+                                      (place == 'sibJ' and cs != ('geom',) and (ka, kb) == ('both', 'none'))):
+            continue
+          out.append((place, ka + '|' + kb, cs))
   return out
 
 
@@ -204,6 +214,20 @@ def build(place, kind, cs, sym):
     jb.attrib['pos'], jb.attrib['quat'] = sym('J_p', 3), sym('J_q', 4)
     ElementTree.SubElement(jb, 'joint', {'name': 'Jj'})
     holder = jb
+  if place in ('sibW', 'sibJ'):
+    if place == 'sibJ':
+      jb = ElementTree.SubElement(root, 'body', {'name': 'J'})
+      jb.attrib['pos'], jb.attrib['quat'] = sym('J_p', 3), sym('J_q', 4)
+      ElementTree.SubElement(jb, 'joint', {'name': 'Jj'})
+      holder = jb
+    ka, kb = kind.split('|')
+    a = ElementTree.SubElement(holder, 'body', {'name': 'A'})
+    pose_attrs(a, ka, 'A')
+    add_children(a, 'A')
+    b = ElementTree.SubElement(holder, 'body', {'name': 'B'})
+    pose_attrs(b, kb, 'B')
+    add_children(b, 'B')
+    return root
   a = ElementTree.SubElement(holder, 'body', {'name': 'A'})
   pose_attrs(a, kind, 'A')
   if place == 'nested':
